@@ -45,7 +45,35 @@ func init() {
 					}
 					return true
 				})
-				return whole && byObject && build
+				// … and answers true exactly under that match: a flag that starts false and is set under the test, returned
+				answers := false
+				for v, ds := range h.defs {
+					if len(ds) == 0 || ds[0].node == nil || !h.within(ds[0].node, h.Decl) || !h.isFlag(v, false) {
+						continue
+					}
+					for _, d := range ds {
+						if d.kind != "assign" {
+							continue
+						}
+						for _, g := range h.Guards(d.node) {
+							hit := false
+							h.inspect(g.Expr, func(m ast.Node) bool { // (through predicates analysed in place)
+								if cl2, ok := m.(*ast.CallExpr); ok && h.calleeName(cl2) == pathW+".isWireImport" {
+									hit = true
+								}
+								return true
+							})
+							if hit && !g.Neg {
+								for _, ret := range h.returnsOf() {
+									if len(ret.Results) == 1 && h.varOf(ret.Results[0]) == v {
+										answers = true
+									}
+								}
+							}
+						}
+					}
+				}
+				return whole && byObject && build && answers
 			}
 			n := 0
 			for i, ret := range fi.returnsOf() {
@@ -250,4 +278,995 @@ func isLogical(e ast.Expr) bool {
 		return x.Op == token.NOT
 	}
 	return false
+}
+
+func init() {
+	register("C19.R10", "show's grouping search makes progress: every type pushed onto gather's search stack, other than the node being re-queued, is pushed under the test that it has no entry yet in the visited map (pushing visited nodes instead of unvisited ones re-queues the current node for ever)",
+		func(c *Ctx, r *R) {
+			fi := r.Need(c.Fn(c.Cmd, "gather"), "gather")
+			if fi == nil {
+				return
+			}
+			n := 0
+			fi.inspect(fi.Decl.Body, func(nd ast.Node) bool {
+				as, ok := nd.(*ast.AssignStmt)
+				if !ok || len(as.Lhs) != 1 || len(as.Rhs) != 1 {
+					return true
+				}
+				ap := fi.isBuiltin(as.Rhs[0], "append")
+				stk := fi.varOf(as.Lhs[0])
+				if ap == nil || stk == nil || fi.varOf(ap.Args[0]) != stk || ap.Ellipsis.IsValid() || types.TypeString(stk.Type(), nil) != "[]go/types.Type" {
+					return true
+				}
+				// the node popped in the enclosing loop
+				var popped *types.Var
+				if loop := fi.enclosingLoop(as); loop != nil {
+					fi.inspect(loop, func(m ast.Node) bool {
+						if a2, ok := m.(*ast.AssignStmt); ok && len(a2.Lhs) == 1 && len(a2.Rhs) == 1 && a2.Tok == token.DEFINE {
+							if ix, ok := ast.Unparen(a2.Rhs[0]).(*ast.IndexExpr); ok && fi.varOf(ix.X) == stk {
+								popped = fi.varOf(a2.Lhs[0])
+							}
+						}
+						return true
+					})
+				}
+				for i, e := range ap.Args[1:] {
+					if v := fi.varOf(e); v != nil && v == popped {
+						continue // the current node goes back under its dependencies
+					}
+					n++
+					ok := false
+					for _, g := range fi.Guards(as) {
+						if x, isNil, isT := fi.nilTest(g); isT && isNil {
+							if at := fi.isCall(x, fnMapAt); at != nil && len(at.Args) == 1 && (fi.sameExpr(at.Args[0], e) || fi.sameExpr(fi.deref(at.Args[0]), fi.deref(e))) {
+								ok = true
+							}
+						}
+					}
+					r.Check(ok, "gather/push#"+itoa(n)+"/"+roleShort(fi, e), as.Pos(), "operand %d is pushed only when the visited map has no entry for it", i+1)
+				}
+				return true
+			})
+			r.Floor("pushes onto gather's search stack", n, 3)
+		})
+}
+
+func init() {
+	register("C06.R7", "errors are handled on the edge on which they exist: a test of an error list is an emptiness test (no other threshold); an error variable (or list) that is returned as the error result, added to a collector or logged is never known to be nil (empty) at that point — an inverted or shifted test silently drops real errors and reports phantom ones",
+		func(c *Ctx, r *R) {
+			tests, uses := 0, 0
+			for _, fi := range c.all {
+				fi := fi
+				isErrList := func(e ast.Expr) bool {
+					t := fi.Info.TypeOf(e)
+					if t == nil {
+						return false
+					}
+					sl, ok := t.Underlying().(*types.Slice)
+					return ok && isErrorType(sl.Elem())
+				}
+				// (a) thresholds
+				fi.inspect(fi.Decl.Body, func(nd ast.Node) bool {
+					be, ok := nd.(*ast.BinaryExpr)
+					if !ok {
+						return true
+					}
+					l := fi.isBuiltin(be.X, "len")
+					if l == nil || len(l.Args) != 1 || !isErrList(l.Args[0]) {
+						return true
+					}
+					k, isC := fi.constInt(be.Y)
+					if !isC {
+						return true
+					}
+					tests++
+					okT := k == 0 && (be.Op == token.EQL || be.Op == token.GTR || be.Op == token.NEQ)
+					r.Check(okT, fi.Name+"/error-list-test:"+exprShort(l.Args[0]), be.Pos(), "the error list %s is tested for emptiness (got %s)", exprShort(l.Args[0]), exprShort(be))
+					return true
+				})
+				// (b) polarity at the points of use
+				knownAbsent := func(n ast.Node, v *types.Var) (bool, string) {
+					for _, g := range fi.Guards(n) {
+						// the variable must not be assigned again between the test and the use
+						from := 0
+						if is, ok := g.At.(*ast.IfStmt); ok {
+							from = startOf(is.Cond)
+						} else if g.At != nil {
+							from = startOf(g.At)
+						}
+						again := false
+						for _, d := range fi.defs[v] {
+							if d.node != nil && startOf(d.node) > from && startOf(d.node) < startOf(n) {
+								again = true
+							}
+						}
+						if again || from == 0 {
+							continue
+						}
+						if x, isNil, ok := fi.nilTest(g); ok && isNil && fi.varOf(x) == v {
+							return true, exprShort(x) + " == nil"
+						}
+						if x, nonEmpty, ok := fi.lenTest(g); ok && !nonEmpty && fi.varOf(x) == v {
+							return true, "len(" + exprShort(x) + ") == 0"
+						}
+					}
+					return false, ""
+				}
+				check := func(n ast.Node, e ast.Expr, what string) {
+					// the variable itself, or wrapped: fmt.Errorf("…: %v", err), notePosition(p, err), mapErrors(errs, f)
+					seen := map[*types.Var]bool{}
+					ast.Inspect(e, func(m ast.Node) bool {
+						if _, isLit := m.(*ast.FuncLit); isLit {
+							return false
+						}
+						id, ok := m.(*ast.Ident)
+						if !ok {
+							return true
+						}
+						v, ok := fi.Info.Uses[id].(*types.Var)
+						if !ok || v.IsField() || seen[v] || !(isErrorType(v.Type()) || isErrList(id)) {
+							return true
+						}
+						seen[v] = true
+						uses++
+						if absent, how := knownAbsent(n, v); absent {
+							r.Bad(fi.Name+"/"+what+":"+v.Name(), n.Pos(), "%s is %s here although %s holds: the error test is inverted", v.Name(), what, how)
+						}
+						return true
+					})
+				}
+				fi.inspect(fi.Decl.Body, func(nd ast.Node) bool {
+					switch x := nd.(type) {
+					case *ast.ReturnStmt:
+						if len(x.Results) > 0 {
+							check(x, x.Results[len(x.Results)-1], "returned")
+						}
+					case *ast.CallExpr:
+						if fi.calleeName(x) == fnECAdd {
+							for _, a := range x.Args {
+								check(x, a, "added to the collector")
+							}
+						}
+						if n := fi.calleeName(x); n == pathCmd+".logErrors" || n == "log.Println" || n == "log.Print" {
+							for _, a := range x.Args {
+								check(x, a, "logged")
+							}
+						}
+					}
+					return true
+				})
+			}
+			r.Floor("error-list tests", tests, 15)
+			r.Floor("uses of error variables", uses, 25)
+			r.Ok("polarity", 0, "no error variable is returned, collected or logged on the edge on which it is known to be absent (%d uses)", uses)
+		})
+
+	register("C17.R11", "nothing to do is the only early success: in gen and diff a return of status 0 that is not decided by the success flag is taken only when wire.Generate returned no results at all (and no errors)",
+		func(c *Ctx, r *R) {
+			for _, name := range []string{"genCmd.Execute", "diffCmd.Execute"} {
+				fi := r.Need(c.Fn(c.Cmd, name), name)
+				if fi == nil {
+					continue
+				}
+				n := 0
+				for i, ret := range fi.returnsOf() {
+					v, ok := fi.constInt(ret.Results[0])
+					if !ok || v != 0 {
+						continue
+					}
+					flagged := false
+					for _, g := range fi.Guards(ret) {
+						if fv := fi.varOf(g.Expr); fv != nil && fi.isFlag(fv, true) {
+							flagged = true
+						}
+					}
+					if flagged {
+						continue
+					}
+					n++
+					okE := false
+					for _, g := range fi.Guards(ret) {
+						if x, nonEmpty, isL := fi.lenTest(g); isL && !nonEmpty {
+							if d := fi.defOf(x); d != nil && d.idx == 0 && fi.isCall(d.rhs, pathW+".Generate") != nil {
+								okE = true
+							}
+						}
+					}
+					r.Check(okE, name+"/early-success#"+itoa(i), ret.Pos(), "status 0 before any result was looked at is returned only when Generate produced no results")
+				}
+				r.Floor("early success returns of "+name, n, 1)
+			}
+		})
+}
+
+func init() {
+	register("C17.R12", "the packages named on the command line are the packages processed: packages() returns the flag set's arguments, and the current directory only when there are none; a unusable -header_file is used exactly when one is named",
+		func(c *Ctx, r *R) {
+			fi := r.Need(c.Fn(c.Cmd, "packages"), "packages")
+			if fi != nil {
+				n := 0
+				for i, ret := range fi.returnsOf() {
+					if len(ret.Results) != 1 {
+						continue
+					}
+					// one variable assigned the arguments and then, under the no-arguments test, the default
+					if v := fi.varOf(ret.Results[0]); v != nil && len(fi.defs[v]) >= 2 {
+						okArgs, okDef, other := false, false, 0
+						for _, d := range fi.defs[v] {
+							n++
+							switch {
+							case d.rhs != nil && fi.isCall(d.rhs, "flag.FlagSet.Args") != nil:
+								okArgs = fi.unconditionalIn(d.node, fi.Decl.Body)
+							case d.rhs != nil:
+								cl, isLit := ast.Unparen(d.rhs).(*ast.CompositeLit)
+								isDot := isLit && len(cl.Elts) == 1
+								if isDot {
+									if s, ok := newEmitter(c, fi).constString(cl.Elts[0]); !ok || s != "." {
+										isDot = false
+									}
+								}
+								under := false
+								gs := fi.Guards(d.node)
+								for _, g := range gs {
+									if x, nonEmpty, ok := fi.lenTest(g); ok && !nonEmpty && (fi.varOf(x) == v || fi.isCall(fi.deref(x), "flag.FlagSet.Args") != nil) {
+										under = true
+									}
+								}
+								if isDot && under && len(gs) == 1 {
+									okDef = true
+								} else {
+									other++
+								}
+							default:
+								other++
+							}
+						}
+						r.Check(okArgs && okDef && other == 0, "packages/arguments-or-default", ret.Pos(), "the result is the command's arguments, replaced by \".\" only when there are none")
+						continue
+					}
+					n++
+					e := fi.deref(ret.Results[0])
+					if cl, ok := ast.Unparen(e).(*ast.CompositeLit); ok {
+						// the default: only under "no arguments"
+						isDot := len(cl.Elts) == 1
+						if isDot {
+							if s, ok := newEmitter(c, fi).constString(cl.Elts[0]); !ok || s != "." {
+								isDot = false
+							}
+						}
+						under := false
+						for _, g := range fi.Guards(ret) {
+							if x, nonEmpty, ok := fi.lenTest(g); ok && !nonEmpty && fi.isCall(fi.deref(x), "flag.FlagSet.Args") != nil {
+								under = true
+							}
+							if z, one, ok := nargTest(fi, g); ok && z && !one {
+								under = true
+							}
+						}
+						r.Check(isDot && under, "packages/default#"+itoa(i), ret.Pos(), "the default pattern is \".\" and is used only when no argument was given")
+						continue
+					}
+					// the arguments themselves: not on the no-arguments edge
+					isArgs := fi.isCall(e, "flag.FlagSet.Args") != nil
+					empty := false
+					for _, g := range fi.Guards(ret) {
+						if x, nonEmpty, ok := fi.lenTest(g); ok && !nonEmpty && fi.isCall(fi.deref(x), "flag.FlagSet.Args") != nil {
+							empty = true
+						}
+						if z, _, ok := nargTest(fi, g); ok && z {
+							empty = true
+						}
+					}
+					r.Check(isArgs && !empty, "packages/arguments#"+itoa(i), ret.Pos(), "the command's arguments are returned whenever there are any")
+				}
+				r.Floor("returns of packages()", n, 2)
+			}
+			ng := r.Need(c.Fn(c.Cmd, "newGenerateOptions"), "newGenerateOptions")
+			if ng != nil {
+				n := 0
+				for _, cl := range ng.callsDeep(ng.Decl.Body) {
+					if nm := ng.calleeName(cl); nm != "io/ioutil.ReadFile" && nm != "os.ReadFile" {
+						continue
+					}
+					n++
+					v := ng.varOf(cl.Args[0])
+					ok := false
+					for _, g := range ng.Guards(cl) {
+						if be, isB := ast.Unparen(g.Expr).(*ast.BinaryExpr); isB && ng.varOf(be.X) == v && types.ExprString(be.Y) == `""` && ((be.Op == token.NEQ && !g.Neg) || (be.Op == token.EQL && g.Neg)) {
+							ok = true
+						}
+					}
+					okP := v != nil && ng.isParam(v)
+					r.Check(ok && okP, "newGenerateOptions/header-read-iff-named", cl.Pos(), "the header file is read exactly when the option names one")
+				}
+				r.Floor("header reads", n, 1)
+			}
+		})
+}
+
+// nargTest: the guard compares f.NArg() with a constant; reports whether it holds with no argument and with one.
+func nargTest(fi *FuncInfo, g Cond) (atZero, atOne, ok bool) {
+	be, isB := ast.Unparen(g.Expr).(*ast.BinaryExpr)
+	if !isB || g.Kind != "bool" || fi.isCall(be.X, "flag.FlagSet.NArg") == nil {
+		return false, false, false
+	}
+	k, isC := fi.constInt(be.Y)
+	if !isC {
+		return false, false, false
+	}
+	at := func(n int64) bool {
+		var v bool
+		switch be.Op {
+		case token.EQL:
+			v = n == k
+		case token.NEQ:
+			v = n != k
+		case token.LSS:
+			v = n < k
+		case token.LEQ:
+			v = n <= k
+		case token.GTR:
+			v = n > k
+		case token.GEQ:
+			v = n >= k
+		default:
+			return false
+		}
+		if g.Neg {
+			v = !v
+		}
+		return v
+	}
+	return at(0), at(1), true
+}
+
+func init() {
+	register("C19.R11", "show's grouping, clause by clause: inputs are recorded with the sentinel -1 and nothing else is; a provider is grouped only once a flag that starts true and is cleared for every dependency without an entry says all are present; a node joins an existing group exactly when sameTypeKeys holds for that group's inputs and its own; sameTypeKeys is equal size plus every key of the one present in the other; a field's input set is its parent itself when the parent is an input and the parent's group inputs otherwise; both work lists pop the last element",
+		func(c *Ctx, r *R) {
+			fi := r.Need(c.Fn(c.Cmd, "gather"), "gather")
+			if fi == nil {
+				return
+			}
+			// visited map: the typeutil.Map whose stored values are ints
+			var visited *types.Var
+			for _, cl := range fi.callsTo(fnMapSet) {
+				if len(cl.Args) == 2 {
+					if t := fi.Info.TypeOf(cl.Args[1]); t != nil && types.TypeString(types.Default(t), nil) == "int" {
+						visited = fi.varOf(recvOf(cl))
+					}
+				}
+			}
+			if visited == nil {
+				r.Bad("visited-map", fi.Decl.Pos(), "the map from type to group index not found")
+				return
+			}
+			// (1) sentinel
+			nSent, nIdx := 0, 0
+			for _, cl := range fi.callsTo(fnMapSet) {
+				if fi.varOf(recvOf(cl)) != visited {
+					continue
+				}
+				if k, isC := fi.constInt(cl.Args[1]); isC {
+					nSent++
+					inputArm := false
+					for _, g := range fi.Guards(cl) {
+						if cl0 := callOf(g.Expr); !g.Neg && cl0 != nil {
+							if n := fi.calleeName(cl0); n == pathW+".ProvidedType.IsNil" || n == pathW+".ProvidedType.IsArg" {
+								inputArm = true
+							}
+						}
+					}
+					r.Check(k == -1 && inputArm, "sentinel#"+itoa(nSent), cl.Pos(), "a constant entry is -1 and is made for inputs (no source, or an injector argument) only (got %d)", k)
+				} else {
+					nIdx++
+				}
+			}
+			r.Floor("sentinel entries", nSent, 2)
+			r.Floor("group-index entries", nIdx, 6)
+			// (2) the all-present flag
+			var flag *types.Var
+			for v, ds := range fi.defs {
+				if len(ds) > 0 && ds[0].node != nil && fi.within(ds[0].node, fi.Decl) && fi.isFlag(v, true) {
+					for _, d := range fi.defs[v] {
+						if d.kind == "assign" {
+							// the test directly around the clearing assignment
+							var inner *ast.IfStmt
+							if blk, ok := fi.parent[fi.stmtOf(d.node)].(*ast.BlockStmt); ok {
+								inner, _ = fi.parent[blk].(*ast.IfStmt)
+							}
+							for _, g := range fi.Guards(d.node) {
+								if inner == nil || g.At != ast.Node(inner) {
+									continue
+								}
+								if x, isNil, ok := fi.nilTest(g); ok && isNil {
+									if at := fi.isCall(x, fnMapAt); at != nil && fi.varOf(recvOf(at)) == visited {
+										flag = v
+									}
+								}
+							}
+						}
+					}
+				}
+			}
+			r.Check(flag != nil, "all-present-flag", fi.Decl.Pos(), "a flag that starts true and is cleared under `no entry for this dependency` decides whether a provider can be grouped")
+			if flag != nil {
+				// the re-queue happens under !flag; every group-index entry of the provider arm is made under flag
+				requeued := false
+				for v2, ds := range fi.defs {
+					if types.TypeString(v2.Type(), nil) != "[]go/types.Type" || len(ds) == 0 || ds[0].node == nil || !fi.within(ds[0].node, fi.Decl) {
+						continue
+					}
+					for _, d := range fi.defs[v2] {
+						if d.node == nil || fi.isBuiltin(d.rhs, "append") == nil {
+							continue
+						}
+						for _, g := range fi.Guards(d.node) {
+							if fi.varOf(g.Expr) == flag && g.Neg {
+								requeued = true
+							}
+						}
+					}
+				}
+				r.Check(requeued, "all-present-flag/requeue", fi.Decl.Pos(), "when a dependency is missing the node is queued again behind its dependencies")
+			}
+			// (3) joining a group
+			joins := 0
+			for _, cl := range fi.callsTo(fnMapSet) {
+				sel, ok := ast.Unparen(recvOf(cl)).(*ast.SelectorExpr)
+				if !ok || sel.Sel.Name != "outputs" {
+					continue
+				}
+				grp := ast.Unparen(sel.X) // groups[i], or the element variable of a loop over the groups
+				joins++
+				okJ := false
+				for _, g := range fi.Guards(cl) {
+					if g.Neg {
+						continue
+					}
+					if st := fi.isCall(g.Expr, pathCmd+".sameTypeKeys"); st != nil && len(st.Args) == 2 {
+						for k := 0; k < 2; k++ {
+							if s2, ok := ast.Unparen(st.Args[k]).(*ast.SelectorExpr); ok && s2.Sel.Name == "inputs" && fi.sameExpr(s2.X, grp) {
+								okJ = true
+							}
+						}
+					}
+					// values: the group without inputs
+					if x, nonEmpty, isL := fi.lenCallTest(g); isL && !nonEmpty {
+						if s2, ok := ast.Unparen(x).(*ast.SelectorExpr); ok && s2.Sel.Name == "inputs" && fi.sameExpr(s2.X, grp) {
+							okJ = true
+						}
+					}
+				}
+				r.Check(okJ, "join#"+itoa(joins), cl.Pos(), "a node is added to an existing group only when that group's inputs are the node's inputs")
+			}
+			r.Floor("joins of an existing group", joins, 3)
+			// (4) sameTypeKeys
+			if st := r.Need(c.Fn(c.Cmd, "sameTypeKeys"), "sameTypeKeys"); st != nil {
+				okLen, okFlag, okRet := false, false, false
+				var same *types.Var
+				for v, ds := range st.defs { // (the table is shared by the package: only variables defined in this function)
+					if len(ds) > 0 && ds[0].node != nil && st.within(ds[0].node, st.Decl) && st.isFlag(v, true) {
+						same = v
+					}
+				}
+				for _, ret := range st.returnsOf() {
+					if id, ok := ast.Unparen(ret.Results[0]).(*ast.Ident); ok && id.Name == "false" {
+						for _, g := range st.Guards(ret) {
+							if be, ok := ast.Unparen(g.Expr).(*ast.BinaryExpr); ok && !g.Neg && be.Op == token.NEQ && st.isCall(be.X, "golang.org/x/tools/go/types/typeutil.Map.Len") != nil && st.isCall(be.Y, "golang.org/x/tools/go/types/typeutil.Map.Len") != nil {
+								okLen = true
+							}
+						}
+					} else if same != nil && st.varOf(ret.Results[0]) == same {
+						okRet = true
+					} else {
+						okRet = false
+					}
+				}
+				if same != nil {
+					for _, d := range st.defs[same] {
+						if d.kind != "assign" {
+							continue
+						}
+						for _, g := range st.Guards(d.node) {
+							if x, isNil, ok := st.nilTest(g); ok && isNil && st.isCall(x, fnMapAt) != nil {
+								okFlag = true
+							}
+						}
+					}
+				}
+				r.Check(okLen && okFlag && okRet, "sameTypeKeys/definition", st.Decl.Pos(), "false when the sizes differ; otherwise a flag that starts true, is cleared for a key of the one map missing in the other, and is the result")
+			}
+			// (7) a node that already has an entry is not handled again: every entry made for the popped node is
+			// dominated by the test that it has none yet
+			handled := 0
+			for _, cl := range fi.callsTo(fnMapSet) {
+				if fi.varOf(recvOf(cl)) != visited {
+					continue
+				}
+				handled++
+				okH := false
+				for _, g := range fi.Guards(cl) {
+					if x, isNil, isT := fi.nilTest(g); isT && isNil {
+						if at := fi.isCall(x, fnMapAt); at != nil && fi.varOf(recvOf(at)) == visited && fi.sameExpr(at.Args[0], cl.Args[0]) {
+							okH = true
+						}
+					}
+				}
+				r.Check(okH, "entry-once#"+itoa(handled), cl.Pos(), "an entry is made only for a node that has none yet")
+			}
+			// (6) the work lists pop their last element: S[len(S)-1] and S[:len(S)-1], nothing else built from len(S)
+			pops := 0
+			fi.inspect(fi.Decl.Body, func(nd ast.Node) bool {
+				var seq, idx ast.Expr
+				switch x := nd.(type) {
+				case *ast.IndexExpr:
+					seq, idx = x.X, x.Index
+				case *ast.SliceExpr:
+					if x.Low != nil || x.High == nil {
+						return true
+					}
+					seq, idx = x.X, x.High
+				default:
+					return true
+				}
+				sv := fi.varOf(seq)
+				if sv == nil {
+					return true
+				}
+				if _, isSlice := sv.Type().Underlying().(*types.Slice); !isSlice {
+					return true
+				}
+				// len(S), or a local that only ever holds len(S)
+				isLen := func(e ast.Expr) bool {
+					if e == nil {
+						return false
+					}
+					if l := fi.isBuiltin(e, "len"); l != nil && fi.varOf(l.Args[0]) == sv {
+						return true
+					}
+					if lv := fi.varOf(e); lv != nil && len(fi.defs[lv]) > 0 {
+						for _, d := range fi.defs[lv] {
+							if l := fi.isBuiltin(d.rhs, "len"); l == nil || fi.varOf(l.Args[0]) != sv {
+								return false
+							}
+						}
+						return true
+					}
+					return false
+				}
+				mentionsLen := false
+				ast.Inspect(idx, func(m ast.Node) bool {
+					if isLen(asExpr(m)) {
+						mentionsLen = true
+					}
+					return true
+				})
+				if !mentionsLen {
+					return true
+				}
+				pops++
+				okP := false
+				if be, ok := ast.Unparen(idx).(*ast.BinaryExpr); ok && be.Op == token.SUB && types.ExprString(be.Y) == "1" && isLen(be.X) {
+					okP = true
+				}
+				// … inside a loop that runs while the list is not empty
+				inLoop := false
+				for l := fi.enclosingLoop(nd); l != nil; l = fi.enclosingLoop(l) {
+					if f, ok := l.(*ast.ForStmt); ok && f.Cond != nil {
+						if x, nonEmpty, ok := fi.lenTest(Cond{Kind: "bool", Expr: f.Cond}); ok && nonEmpty && fi.varOf(x) == sv {
+							inLoop = true
+						}
+						if be, ok := ast.Unparen(f.Cond).(*ast.BinaryExpr); ok && be.Op == token.GTR && types.ExprString(be.Y) == "0" && isLen(be.X) {
+							inLoop = true
+						}
+					}
+				}
+				r.Check(okP && inLoop, "pop#"+itoa(pops), nd.Pos(), "the work list is read and shortened at len-1, while it is not empty")
+				return true
+			})
+			r.Floor("work-list pops", pops, 2)
+			// (5) a field's inputs
+			nField := 0
+			fi.inspect(fi.Decl.Body, func(nd ast.Node) bool {
+				is, ok := nd.(*ast.IfStmt)
+				if !ok || len(is.Body.List) == 0 {
+					return true
+				}
+				be, ok := ast.Unparen(is.Cond).(*ast.BinaryExpr)
+				if !ok {
+					return true
+				}
+				k, isC := fi.constInt(be.Y)
+				if !isC || k != -1 || (be.Op != token.EQL && be.Op != token.NEQ) {
+					return true
+				}
+				nField++
+				// the two edges, however the branch is written (if/else, or guard + continue)
+				thenCalls := callsIn(is.Body)
+				var elseCalls []*ast.CallExpr
+				for _, root := range fi.otherEdgeRoots(is, is.Body.List[0]) {
+					elseCalls = append(elseCalls, callsIn(root)...)
+				}
+				inputCalls, groupCalls := thenCalls, elseCalls
+				if be.Op == token.NEQ {
+					inputCalls, groupCalls = elseCalls, thenCalls
+				}
+				setsSelf, merges := false, false
+				for _, cl := range inputCalls {
+					if fi.calleeName(cl) == fnMapSet {
+						setsSelf = true
+					}
+				}
+				for _, cl := range inputCalls {
+					if fi.calleeName(cl) == pathCmd+".mergeTypeSets" {
+						setsSelf = false
+					}
+				}
+				for _, cl := range groupCalls {
+					if fi.calleeName(cl) == pathCmd+".mergeTypeSets" {
+						merges = true
+					}
+				}
+				r.Check(setsSelf && merges, "inputs-of-dependency#"+itoa(nField), is.Pos(), "a dependency that is an input contributes itself, one that was grouped contributes its group's inputs")
+				return true
+			})
+			r.Floor("input/group decisions", nField, 2)
+		})
+}
+
+// lenCallTest: the guard compares X.Len() (typeutil.Map) with 0.
+func (fi *FuncInfo) lenCallTest(g Cond) (x ast.Expr, nonEmpty, ok bool) {
+	be, isB := ast.Unparen(g.Expr).(*ast.BinaryExpr)
+	if !isB || g.Kind != "bool" {
+		return nil, false, false
+	}
+	cl := fi.isCall(be.X, "golang.org/x/tools/go/types/typeutil.Map.Len")
+	k, isC := fi.constInt(be.Y)
+	if cl == nil || !isC || k != 0 {
+		return nil, false, false
+	}
+	switch be.Op {
+	case token.EQL:
+		nonEmpty = false
+	case token.GTR, token.NEQ:
+		nonEmpty = true
+	default:
+		return nil, false, false
+	}
+	if g.Neg {
+		nonEmpty = !nonEmpty
+	}
+	return recvOf(cl), nonEmpty, true
+}
+
+func init() {
+	register("C20.R9", "a comma-ok type assertion's value is dereferenced only where the assertion is known to have succeeded: every field selection, method call or dereference through `v` of `v, ok := x.(T)` (T a pointer or interface type) is dominated by ok — an inverted test dereferences nil for every input that takes the branch",
+		func(c *Ctx, r *R) {
+			n := 0
+			for _, fi := range c.all {
+				fi := fi
+				fi.inspect(fi.Decl.Body, func(nd ast.Node) bool {
+					as, ok := nd.(*ast.AssignStmt)
+					if !ok || as.Tok != token.DEFINE || len(as.Lhs) != 2 || len(as.Rhs) != 1 {
+						return true
+					}
+					ta, ok := ast.Unparen(as.Rhs[0]).(*ast.TypeAssertExpr)
+					if !ok || ta.Type == nil {
+						return true
+					}
+					v, okv := fi.varOf(as.Lhs[0]), fi.varOf(as.Lhs[1])
+					if v == nil || okv == nil || len(fi.defs[v]) != 1 || len(fi.defs[okv]) != 1 {
+						return true
+					}
+					switch v.Type().Underlying().(type) {
+					case *types.Pointer, *types.Interface:
+					default:
+						return true
+					}
+					// the function (or closure) the assertion belongs to
+					var scope ast.Node = fi.Decl.Body
+					if lit := fi.enclosing(as, func(m ast.Node) bool { _, ok := m.(*ast.FuncLit); return ok }); lit != nil {
+						scope = lit
+					}
+					k := 0
+					fi.inspect(scope, func(m ast.Node) bool {
+						var base ast.Expr
+						switch x := m.(type) {
+						case *ast.SelectorExpr:
+							base = x.X
+						case *ast.StarExpr:
+							base = x.X
+						default:
+							return true
+						}
+						id, isId := ast.Unparen(base).(*ast.Ident)
+						if !isId || fi.Info.Uses[id] != types.Object(v) {
+							return true
+						}
+						k++
+						n++
+						good := false
+						for _, g := range fi.guardsWithShortCircuit(m) {
+							if g.Kind == "bool" && fi.varOf(g.Expr) == okv && !g.Neg {
+								good = true
+							}
+							// or the value itself was tested against nil
+							if x, isNil, isT := fi.nilTest(g); isT && !isNil && fi.varOf(x) == v {
+								good = true
+							}
+						}
+						r.Check(good, fi.Name+"/assert-use:"+roleShort(fi, as.Rhs[0])+"#"+itoa(k), m.Pos(), "%s is used through only where %s holds", v.Name(), okv.Name())
+						return true
+					})
+					return true
+				})
+			}
+			r.Floor("dereferences of comma-ok assertion values", n, 20)
+		})
+}
+
+// guardsWithShortCircuit: the conditions known at n, including (a) the left
+// operands of the && / || expressions n sits in the right operand of, and
+// (b), for a node inside closures, the conditions under which each enclosing
+// closure was created (they still hold when it runs for variables assigned once).
+func (fi *FuncInfo) guardsWithShortCircuit(n ast.Node) []Cond {
+	var out []Cond
+	child := n
+	for p := fi.parent[child]; p != nil; child, p = p, fi.parent[p] {
+		if be, ok := p.(*ast.BinaryExpr); ok && (be.Op == token.LAND || be.Op == token.LOR) && child == ast.Node(be.Y) {
+			out = append(out, flatten(be.X, be.Op == token.LOR, be)...)
+		}
+		if _, isStmt := p.(ast.Stmt); isStmt {
+			break
+		}
+	}
+	out = append(out, fi.Guards(n)...)
+	for lit := fi.enclosing(n, func(m ast.Node) bool { _, ok := m.(*ast.FuncLit); return ok }); lit != nil; {
+		out = append(out, fi.Guards(lit)...)
+		next := fi.enclosing(fi.parent[lit], func(m ast.Node) bool { _, ok := m.(*ast.FuncLit); return ok })
+		if next == nil || next == lit {
+			break
+		}
+		lit = next
+	}
+	return out
+}
+
+func init() {
+	register("C15.R9", "the renamer's scope bookkeeping and declaration tests are exact: a scope is pushed exactly when the copied node has one; isTypeSwitchVarDecl holds exactly for `id := x.(type)`; the package of a printed field name is taken from the field of that name",
+		func(c *Ctx, r *R) {
+			if fi := r.Need(c.Fn(c.W, "gen.rewritePkgRefs"), "gen.rewritePkgRefs"); fi != nil {
+				n := 0
+				fi.inspect(fi.Decl.Body, func(nd ast.Node) bool {
+					as, ok := nd.(*ast.AssignStmt)
+					if !ok || len(as.Lhs) != 1 || len(as.Rhs) != 1 {
+						return true
+					}
+					ap := fi.isBuiltin(as.Rhs[0], "append")
+					if ap == nil || len(ap.Args) != 2 || types.TypeString(fi.Info.TypeOf(as.Lhs[0]), nil) != "[]*go/types.Scope" {
+						return true
+					}
+					n++
+					pushed := fi.varOf(ap.Args[1])
+					ok2 := false
+					for _, g := range fi.Guards(as) {
+						if x, isNil, isT := fi.nilTest(g); isT && !isNil && fi.varOf(x) == pushed && pushed != nil {
+							ok2 = true
+						}
+					}
+					r.Check(ok2, "rewritePkgRefs/scope-push#"+itoa(n), as.Pos(), "a scope is pushed when (and only when) it is not nil")
+					return true
+				})
+				r.Floor("scope pushes", n, 1)
+			}
+			if fi := r.Need(c.Fn(c.W, "isTypeSwitchVarDecl"), "isTypeSwitchVarDecl"); fi != nil {
+				atom := func(e ast.Expr) (string, bool) {
+					e = ast.Unparen(e)
+					if v := fi.varOf(e); v != nil {
+						if d := fi.reachingDef(v, e); d != nil && d.idx == 1 {
+							if ta, ok := ast.Unparen(d.rhs).(*ast.TypeAssertExpr); ok && ta.Type != nil {
+								switch types.TypeString(fi.Info.TypeOf(ta.Type), nil) {
+								case "*go/ast.AssignStmt":
+									return "isAssign", true
+								case "*go/ast.TypeAssertExpr":
+									return "isTA", true
+								}
+							}
+						}
+					}
+					be, ok := e.(*ast.BinaryExpr)
+					if !ok || (be.Op != token.EQL && be.Op != token.NEQ) {
+						return "", false
+					}
+					pos := be.Op == token.EQL
+					switch {
+					case fi.selField(be.X) != nil && fi.selField(be.X).Name() == "Tok" && types.ExprString(be.Y) == "token.DEFINE":
+						return "define", pos
+					case fi.isBuiltin(be.X, "len") != nil && types.ExprString(be.Y) == "1":
+						if f := fi.selField(fi.isBuiltin(be.X, "len").Args[0]); f != nil {
+							return "one" + f.Name(), pos
+						}
+					case fi.isNilIdent(be.Y) && fi.selField(be.X) != nil && fi.selField(be.X).Name() == "Type":
+						return "typeNil", pos
+					}
+					if ix, ok := ast.Unparen(be.X).(*ast.IndexExpr); ok && types.ExprString(ix.Index) == "0" {
+						if f := fi.selField(ix.X); f != nil && f.Name() == "Lhs" {
+							return "isId", pos
+						}
+					}
+					return "", false
+				}
+				names := []string{"isAssign", "define", "oneLhs", "oneRhs", "isId", "isTA", "typeNil"}
+				okT := true
+				for m := 0; m < 1<<len(names); m++ {
+					env := map[string]bool{}
+					for i, nm := range names {
+						env[nm] = m&(1<<i) != 0
+					}
+					v, ok := fi.evalBoolFunc(env, atom)
+					if !ok || v != (m == 1<<len(names)-1) {
+						okT = false
+					}
+				}
+				r.Check(okT, "isTypeSwitchVarDecl/definition", fi.Decl.Pos(), "true exactly for a one-to-one short declaration of this identifier from an x.(type) expression")
+			}
+			// (looked up without naming it: namedByCall stays analysed as part of checkCalls for the other rules)
+			if fi := r.Need(c.funcs[pathW+"::namedByCall"], "namedByCall"); fi != nil {
+				n := 0
+				fi.inspect(fi.Decl.Body, func(nd ast.Node) bool {
+					as, ok := nd.(*ast.AssignStmt)
+					if !ok || len(as.Lhs) != 1 || len(as.Rhs) != 1 {
+						return true
+					}
+					pk := fi.isCall(as.Rhs[0], "go/types.Var.Pkg", "go/types.object.Pkg")
+					if pk == nil {
+						return true
+					}
+					if t := fi.Info.TypeOf(recvOf(pk)); t == nil || types.TypeString(t, nil) != "*go/types.Var" {
+						return true
+					}
+					n++
+					fld := fi.expandLocals(recvOf(pk))
+					ok2 := false
+					for _, g := range fi.Guards(as) {
+						be, isB := fi.expandLocals(g.Expr).(*ast.BinaryExpr)
+						if !isB || !((be.Op == token.EQL && !g.Neg) || (be.Op == token.NEQ && g.Neg)) {
+							continue
+						}
+						for k, side := range []ast.Expr{be.X, be.Y} {
+							other := []ast.Expr{be.Y, be.X}[k]
+							if nm := fi.isCall(side, "go/types.Var.Name", "go/types.object.Name"); nm != nil && exprShort(fi.expandLocals(recvOf(nm))) == exprShort(fld) {
+								v := fi.varOf(other)
+								for hop := 0; v != nil && hop < 4; hop++ {
+									next := (*types.Var)(nil)
+									for _, d := range fi.defs[v] {
+										if d.kind == "range-val" {
+											ok2 = true // the name being looked up: an element of the call's field names
+										}
+										if (d.kind == "param" || d.kind == "define") && d.rhs != nil && len(fi.defs[v]) == 1 {
+											next = fi.varOf(d.rhs)
+										}
+									}
+									v = next
+								}
+							}
+						}
+					}
+					r.Check(ok2, "namedByCall/field-package#"+itoa(n), as.Pos(), "the package of a printed field name is that of the struct field with exactly that name")
+					return true
+				})
+				r.Floor("field package assignments", n, 1)
+			}
+		})
+}
+
+// reachingDef: of the straight-line definitions of v, the last one that
+// precedes the use (structural order); nil when a definition sits in a loop
+// or branch that the use is not part of.
+func (fi *FuncInfo) reachingDef(v *types.Var, use ast.Node) *defSite {
+	var best *defSite
+	for i := range fi.defs[v] {
+		d := &fi.defs[v][i]
+		if d.node == nil || startOf(d.node) >= startOf(use) {
+			continue
+		}
+		if best == nil || startOf(d.node) > startOf(best.node) {
+			best = d
+		}
+	}
+	if best == nil || best.rhs == nil {
+		return nil
+	}
+	// the definition must dominate the use: it is an earlier sibling of the use or of one of its ancestors
+	if !fi.precedes(fi.stmtOf(best.node), use) {
+		// … or the init of an if / switch statement the use is inside of
+		inInit := false
+		for p := fi.parent[use]; p != nil; p = fi.parent[p] {
+			switch x := p.(type) {
+			case *ast.IfStmt:
+				if x.Init != nil && fi.within(best.node, x.Init) {
+					inInit = true
+				}
+			case *ast.SwitchStmt:
+				if x.Init != nil && fi.within(best.node, x.Init) {
+					inInit = true
+				}
+			}
+		}
+		if !inInit {
+			return nil
+		}
+	}
+	return best
+}
+
+func asExpr(n ast.Node) ast.Expr {
+	e, _ := n.(ast.Expr)
+	return e
+}
+
+func init() {
+	register("C18.R7", "user tags are split at commas and spaces, at nothing else: the predicate load hands to strings.FieldsFunc is true exactly for ',' and ' '",
+		func(c *Ctx, r *R) {
+			fi := r.Need(c.Fn(c.W, "load"), "load")
+			if fi == nil {
+				return
+			}
+			n := 0
+			for _, cl := range fi.callsDeep(fi.Decl.Body) {
+				if fi.calleeName(cl) != "strings.FieldsFunc" || len(cl.Args) != 2 {
+					continue
+				}
+				n++
+				lit, _ := ast.Unparen(fi.deref(cl.Args[1])).(*ast.FuncLit)
+				var body []ast.Stmt
+				var param *types.Var
+				if lit != nil {
+					body = lit.Body.List
+					if len(lit.Type.Params.List) == 1 && len(lit.Type.Params.List[0].Names) == 1 {
+						param, _ = fi.Info.Defs[lit.Type.Params.List[0].Names[0]].(*types.Var)
+					}
+				} else if h := fi.C.FnOf(fi.calleeOfValue(cl.Args[1])); h != nil {
+					body = h.Decl.Body.List
+					if len(h.Decl.Type.Params.List) == 1 && len(h.Decl.Type.Params.List[0].Names) == 1 {
+						param, _ = h.Info.Defs[h.Decl.Type.Params.List[0].Names[0]].(*types.Var)
+					}
+				}
+				atom := func(e ast.Expr) (string, bool) {
+					be, ok := ast.Unparen(e).(*ast.BinaryExpr)
+					if !ok || (be.Op != token.EQL && be.Op != token.NEQ) || fi.varOf(be.X) != param || param == nil {
+						return "", false
+					}
+					switch types.ExprString(be.Y) {
+					case "','":
+						return "comma", be.Op == token.EQL
+					case "' '":
+						return "space", be.Op == token.EQL
+					}
+					return "", false
+				}
+				okT := body != nil
+				for m := 0; m < 4 && okT; m++ {
+					env := map[string]bool{"comma": m&1 != 0, "space": m&2 != 0}
+					if m == 3 {
+						continue // a rune is not both
+					}
+					v, ok := fi.evalBoolStmts(body, env, atom)
+					if !ok || v != (m != 0) {
+						okT = false
+					}
+				}
+				r.Check(okT, "load/tag-separators#"+itoa(n), cl.Pos(), "the separator predicate is true exactly for a comma and for a space")
+			}
+			r.Floor("tag splits", n, 1)
+		})
+}
+
+// calleeOfValue: the declared function an identifier used as a function value denotes.
+func (fi *FuncInfo) calleeOfValue(e ast.Expr) *types.Func {
+	if id, ok := ast.Unparen(e).(*ast.Ident); ok {
+		f, _ := fi.Info.Uses[id].(*types.Func)
+		return f
+	}
+	return nil
 }
